@@ -254,6 +254,10 @@ pub fn generate(g: &mut Gen, thorough: bool) {
                     let def = format!("{opname} grids={grids}{tail}");
                     let d = data(&mut g.rng, 6);
                     g.push(case(kind, &[], &def, &d), "oracle-grid-operators", true);
+                    if kind == "plain" {
+                        let grids = super::shipped_grids_of(&def);
+                        g.push(super::opg_line(&grids, &def, "apply", if tail.is_empty() { "F" } else { "I" }, &d), "model-grid-operators", true);
+                    }
                 }
             }
         }
